@@ -9,8 +9,10 @@ pub fn edit_distance_min_alloc(
     previous_row: &mut Vec<u8>,
     current_row: &mut Vec<u8>,
 ) -> u8 {
-    if cfg!(debug_assertions) {
-        assert!(source.len() <= 255 && target.len() <= 255);
+    // The u8 rows can hold the table only while every cell + 1 fits into a u8, i.e. up to 254
+    // characters.  Longer inputs use usize rows; the result saturates at u8::MAX.
+    if source.len() > 254 || target.len() > 254 {
+        return edit_distance_long(source, target).min(u8::MAX as usize) as u8;
     }
 
     let row_width = source.len();
@@ -36,6 +38,28 @@ pub fn edit_distance_min_alloc(
     }
 
     previous_row[row_width]
+}
+
+/// The same two-row algorithm over `usize`, for inputs too long for the `u8` rows.
+fn edit_distance_long(source: &[char], target: &[char]) -> usize {
+    let mut previous_row: Vec<usize> = (0..=source.len()).collect();
+    let mut current_row = vec![0usize; source.len() + 1];
+
+    for (j, t) in target.iter().enumerate() {
+        current_row[0] = j + 1;
+
+        for (i, s) in source.iter().enumerate() {
+            let cost = if s == t { 0 } else { 1 };
+
+            current_row[i + 1] = (previous_row[i + 1] + 1)
+                .min(current_row[i] + 1)
+                .min(previous_row[i] + cost);
+        }
+
+        std::mem::swap(&mut previous_row, &mut current_row);
+    }
+
+    previous_row[source.len()]
 }
 
 pub fn edit_distance(source: &[char], target: &[char]) -> u8 {
